@@ -380,7 +380,7 @@ PROPS['C05']['clause_filter'] = {
     'pwl_reduce': (None, r'wit_inv|emb_inv'),
     'pwl_elim': (r'^(phase_one|phase_inh|phase_two)$', r'wit_inv|wit_cond|wits_cond|contains_tol|tol_sat'),
 }
-PROPS['C05']['technique'] = 'Verus contracts on the extracted witness-producing functions (phase_two, phase_inh: every cached witness passed `contains` for the polytope it is cached for), on Polytope::contains (the 1e-8 row test) and on infeasible_elimination (tree-level cache invariant: witnesses right at entry are right for the pruned tree) + bounded replay (bc prune, bc faults[cache]) of the cache contract on whole trees and through the other operations'
+PROPS['C05']['technique'] = 'Verus contracts on the extracted witness-producing functions (phase_two, phase_inh: every cached witness passed `contains` for the polytope it is cached for), on Polytope::contains (the 1e-8 row test) and - as one clause wit_inv(old, old) ==> wit_inv(final, final) of each contract - on infeasible_elimination, composition (pruned and un-pruned), pruned tree arithmetic, apply_func and reduce (tree-level cache invariant: witnesses right at entry are right for the resulting tree) + bounded replay (bc prune, bc faults[cache]) of the cache contract on whole trees and through the other operations'
 PROPS['C05']['level_text'] = 'Mixed. ' + _FEAS_TEXT + _WIT_TEXT + 'BOUNDED (bc prune / faults / mirror): whole histories end to end (each step is proved, their chaining in the distillation pipeline is replayed), remove_axes, infeasible marks only on regions without interior, mirror_points results lie in the polytope. ' + PROPS['C05']['level_text']
 PROPS['C03']['technique'] = 'Verus contracts on the extracted pruning oracle (is_edge_feasible), LP phase (phase_two), forward_if_redundant and infeasible_elimination: pruning decisions come only from Infeasible verdicts, and the function changes at most for inputs whose original evaluation passes a node with such a verdict (conditional function preservation, LP soundness assumed) + bounded replay (bc prune) of unconditional function preservation through infeasible_elimination and compose::<true,_>'
 PROPS['C03']['level_text'] = 'Mixed. ' + _FEAS_TEXT + 'Structure PROVED (unit pwl_elim): ' + _ELIM_TEXT + 'NOT proved: that removing what these verdicts mark preserves the function (needs the soundness of the LP answer and the simulation argument for the traversal that mutates the tree: bounded). ' + PROPS['C03']['level_text']
